@@ -150,7 +150,7 @@ func c18EntObs(name, src string) string {
 				"m": map[string]interface{}{"k": 1, "j": "v"},
 				"p": c18Person{Name: "Ann", Age: 30},
 			}
-			helpers := map[string]interface{}{"add": func(x, y int) int { return x + y }, "up": strings.ToUpper}
+			helpers := map[string]interface{}{"add": func(x, y int) int { return x + y }, "up": strings.ToUpper, "wrap": c18Wrap}
 			return plush.BuffaloRenderer(src, data, helpers)
 		case "NewTemplate.Exec":
 			t, err := plush.NewTemplate(src)
